@@ -90,12 +90,18 @@ func scrape(h prometheus.Histogram) (s string, panicked bool) {
 	return expoOf(&m), false
 }
 
+var infBucketMismatch int64
+
 func expoOf(m *dto.Metric) string {
 	hh := m.Histogram
 	cum := make([]string, 0, len(hh.Bucket))
 	for _, b := range hh.Bucket {
 		if math.IsInf(b.GetUpperBound(), 1) {
-			continue // the explicit +Inf bucket only exists to carry an exemplar (C02/C03 check its count)
+			// the explicit +Inf bucket only exists to carry an exemplar; its count is the sample count
+			if b.GetCumulativeCount() != hh.GetSampleCount() {
+				atomic.AddInt64(&infBucketMismatch, 1)
+			}
+			continue
 		}
 		cum = append(cum, emit.U(b.GetCumulativeCount()))
 	}
@@ -137,6 +143,20 @@ func genValue(r *emit.Rng) float64 {
 		return math.Ldexp(1.5, r.Intn(30)-10)
 	case 6:
 		return 1e-50 // below the default zero threshold
+	case 7: // exactly on a native bucket boundary that is not a power of two (schemas 1..8), or next to it
+		sc := 1 + r.Intn(8)
+		bs := prometheus.VerifC04Bounds(sc)
+		v := math.Ldexp(bs[1+r.Intn(len(bs)-1)], r.Intn(12)-4)
+		switch r.Intn(4) {
+		case 0:
+			v = math.Nextafter(v, math.Inf(1))
+		case 1:
+			v = math.Nextafter(v, 0)
+		}
+		if r.Chance(1, 4) {
+			v = -v
+		}
+		return v
 	default:
 		return float64(1+r.Intn(4000)) / 8
 	}
@@ -634,6 +654,9 @@ func runC05(c *cli.Ctx) error {
 			w.Extra["stopped_after_hang_at_run"] = it
 			break
 		}
+	}
+	if n := atomic.LoadInt64(&infBucketMismatch); n > 0 {
+		w.Extra["direct_failures"] = []map[string]interface{}{{"index": -1, "what": fmt.Sprintf("%d collections (all streams) expose an explicit +Inf classic bucket whose cumulative count differs from the sample count", n)}}
 	}
 	return w.Flush()
 }
